@@ -139,6 +139,9 @@ func runC16(c *fw.Ctx) {
 	w.GovPct, w.VetoPct = 0, 0
 	nprop := r.Range(10, 16)
 	for i := 0; i < nprop && e.Halted == ""; i++ {
+		if i > 0 && r.Chance(5) { // parameters must also survive, and keep taking effect after, an export/import
+			e.Reimport()
+		}
 		RunMixed(e, g, w, r.Range(1, 4))
 		if e.Halted != "" {
 			break
